@@ -215,7 +215,7 @@ def main():
         if not r.ok:
             failures.append('%s: a true contract was not proved: %s %s' % (case['name'], [o['name'] for o in r.obligations if o['status'] != 'unsat'], r.error))
         for k, b in enumerate(case['bad']):
-            r = verify(contract_of(case, [b]), [], timeout_ms=3000)
+            r = verify(contract_of(case, [b]), [], timeout_ms=800)
             if r.error or all(o['status'] == 'unsat' for o in r.obligations if o['name'].startswith('post')):
                 failures.append('%s: the false postcondition %r was %s' % (case['name'], b, 'proved (UNSOUND)' if not r.error else 'not decided: ' + r.error))
     runs, bad = differential(random.Random(int(os.environ.get('VERIF_SEED', '0') or 0)), int(os.environ.get('SELFTEST_N', '25')))
